@@ -15,3 +15,11 @@ CLAIMED["C04"] = (
  "table agreement and index-space lint over the type-checked AST (switch-arm extraction vs. embedded WebAssembly opcode table)",
  "Decides, exhaustively over all ~175 instruction tokens, that each assembler arm appends the specification's opcode bytes for the mnemonic the token spells, that parser and assembler agree on the AST type per token, that default alignments are natural, and that every position-to-index site builds imports-then-definitions / params-then-locals indices. Does not decide LEB128 immediates, label depths, or module validity.",
  AST_BASE)
+CLAIMED["C05"] = (
+ "writer/reader agreement lint over the type-checked AST (printer arms vs. parser-built node fields, elision constants vs. parser defaults)",
+ "Decides necessary structural clauses of print->parse identity: printer arm and own mnemonic for every instruction token, every parser-stored field that the assembler reads is read by the printer, nested bodies iterated, elided memarg constants equal the parser default (or are illegal values), all section printers called. Does not decide escaping, number formatting or acceptance by other assemblers.",
+ AST_BASE)
+CLAIMED["C06"] = (
+ "reachability-discipline lint over the type-checked AST with slots filled from wat2wasm (root/edge completeness, index-space role agreement, removal filter)",
+ "Decides that the dead-function pass marks from all three root kinds, follows every function-reference field and every nested instruction list, never keys the function map with a field of another index space, removes only unmarked functions, and that the roots survive printing. Does not decide behavioural equivalence of the stripped module beyond these necessary conditions.",
+ AST_BASE)
